@@ -132,7 +132,8 @@ def equality_test(actual, expected, _exact_strings, _delta):
     if ((isinstance(expected, float) and isinstance(actual, (float, int))) or
             (isinstance(actual, float) and isinstance(expected, (float, int)))):
         error = _delta
-        return abs(expected - actual) < error
+        # Equal infinities have no finite difference to compare
+        return expected == actual or abs(expected - actual) < error
     # Other numerics
     elif isinstance(expected, Number) and isinstance(actual, Number) and isinstance(expected, type(actual)):
         return expected == actual
